@@ -78,11 +78,11 @@ FIXED = [
  ("C13", "c13:*-cached:deadlock", "threads that enter a cycle of references at different objects", "two page-tree nodes naming each other as /Parent (objects 4 and 5), thread A get::<PagesNode>(4), thread B get::<PagesNode>(5), object cache on, A preempted after its guard push: both threads sleep in the cache's condition variable for ever (found once the concurrent run started with cold caches)"),
  ("C20", "c20:resource-missing:Pattern", "importing a page copies the pattern and property-list resources", "an imported page whose content paints with a pattern (/P1 scn) arrived without /Pattern /P1"),
  ("C20", "c20:resource-missing:Properties", "importing a page copies the pattern and property-list resources", "an imported page whose marked content names a property list (/Tag /MC1 BDC) arrived without /Properties /MC1"),
+ ("C12", "gate:xref-stream-of-encrypted-file", "the cross-reference stream is decoded without going through the stream cache", "reading the cross-reference stream object of an encrypted file gave the right data with a stream cache (loading had cached it before the decoder existed) and failed without one; and when a later section gives the xref stream's object number to an ordinary stream, the cached document returned the old cross-reference bytes for it (found by a seeding agent as a side remark)"),
 ]
 OPEN = [
  ("C20", "c20:resource-missing:ColorSpace", "an imported page whose content names a colour space resource (/CS1 cs) arrives without /ColorSpace: deep_clone_op does not copy colour space resources; a repair needs writers for most ColorSpace variants (ColorSpace::to_primitive is unimplemented!() except for three), so it is recorded"),
  ("C20", "c20:resource-missing:Shading", "an imported page whose content uses sh arrives without /Shading: the Resources model has no shading dictionary at all"),
- ("C12", "gate:xref-stream-of-encrypted-file", "reading the cross-reference stream object of an encrypted file (Stream::data / resolve) decrypts it although cross-reference streams are never encrypted; with a stream cache the right data is returned because loading cached it before the decoder existed, without one the call fails ('can't inflate'), so the caches are visible for that one object; a repair needs the xref-stream object ids to be carried out of the xref reader (public signatures change), so it is recorded"),
  ("C06", "gate:encrypt-direct-in-trailer", "a document whose trailer holds the /Encrypt dictionary directly (legal, ISO 32000-1 Table 15) cannot be opened with any password: Trailer.encrypt_dict is Option<RcRef<CryptDict>> and rejects a direct dictionary (UnexpectedPrimitive expected Reference); repairing it changes a public field type and needs writers for CryptDict, so it is recorded, not fixed"),
 ]
 
